@@ -163,24 +163,26 @@ def setup():
   class RecSink(ClientMessageSink):
     """Terminal sink: records the MethodCallMessage and answers as scripted."""
 
-    def __init__(self):
+    def __init__(self, open_ar=None):
       super(RecSink, self).__init__()
       self.calls = []
       self.next = None
+      self.script = []           # answers for calls that are dispatched later, in order of arrival
+      self.open_ar = open_ar     # None: Open() completes at once; else the harness completes it (or never does)
 
     @property
     def state(self):
       return ChannelState.Open
 
     def Open(self):
-      return AsyncResult.Complete()
+      return self.open_ar if self.open_ar is not None else AsyncResult.Complete()
 
     def Close(self):
       pass
 
     def AsyncProcessRequest(self, sink_stack, msg, stream, headers):
       self.calls.append((msg.method, msg.args, msg.kwargs, None))
-      kind, obj = self.next or ('value', None)
+      kind, obj = self.script.pop(0) if self.script else (self.next or ('value', None))
       if kind == 'value':
         sink_stack.AsyncProcessResponseMessage(MethodReturnMessage(obj))
       else:
@@ -190,8 +192,8 @@ def setup():
       raise NotImplementedError()
 
   class RecProvider(object):
-    def __init__(self):
-      self.sink = RecSink()
+    def __init__(self, open_ar=None):
+      self.sink = RecSink(open_ar)
 
     def CreateSink(self, properties):
       return self.sink
@@ -208,7 +210,8 @@ def setup():
     def start_async(self, *a, **k):
       self.c20_started += 1
 
-  _S.update(SafeKazoo=SafeKazoo)
+  from scales.message import TimeoutError as ScalesTimeoutError
+  _S.update(SafeKazoo=SafeKazoo, ScalesTimeoutError=ScalesTimeoutError)
   _S.update(core=core, AsyncResult=AsyncResult, CountingAsyncResult=CountingAsyncResult,
             MessageDispatcher=MessageDispatcher, RecProvider=RecProvider, SinkProperties=SinkProperties,
             Static=StaticServerSetProvider, Zk=ZooKeeperServerSetProvider,
@@ -313,6 +316,10 @@ def gen_proxy(r, idx):
   realdisp = r.random() < 0.12
   case = {'kind': 'proxy', 'classes': classes, 'dispatcher': 'real' if realdisp else 'stub',
           'pending': r.choice(['stub', 'real']), 'build': r.choice(['create', 'create', 'build'])}
+  if realdisp:
+    # when Open() completes relative to the calls: before them / after all of them were issued (deferred dispatch,
+    # with or without a call timeout) / after their deadline / never
+    case['open'] = r.choice(['ready', 'ready', 'ready', 'late', 'late', 'late', 'late', 'late_notimeout', 'after_deadline', 'never'])
   # names to look up
   probe = []
   allnames = sorted(set(names))
@@ -574,10 +581,16 @@ def run_proxy(case):
     except Exception:
       pass
   real = case.get('dispatcher') == 'real'
+  openmode = case.get('open', 'ready') if real else 'ready'
+  deferred = []
+  open_ar = None
   if real:
-    prov = _S['RecProvider']()
+    if openmode != 'ready':
+      open_ar = _S['AsyncResult']()
+    prov = _S['RecProvider'](open_ar)
     rec = prov.sink
-    disp = _S['MessageDispatcher'](iface, prov, 10, {_S['SinkProperties'].Label: 'c20'})
+    dtimeout = {'late_notimeout': None, 'after_deadline': 0.05, 'never': 0.05}.get(openmode, 10)
+    disp = _S['MessageDispatcher'](iface, prov, dtimeout, {_S['SinkProperties'].Label: 'c20'})
   else:
     disp = rec = _StubDispatcher()
   del log[:]
@@ -610,7 +623,9 @@ def run_proxy(case):
         o['res'] = 'object'
       else:
         o['res'] = 'own'
-    if o['res'] == 'call':
+    if o['res'] == 'call' and open_ar is not None:
+      deferred.append((oi, op, o))             # issued below, while Open() is still pending
+    elif o['res'] == 'call':
       value, err = _Val(('value', oi)), _Err('e%d' % oi)
       args = tuple(pool[i] for i in op['args'])
       kwargs = dict((k, pool[i]) for k, i in op['kwargs'])
@@ -677,7 +692,112 @@ def run_proxy(case):
         o['timeout_none'] = timeout is None
       o['own_ran'] = len(log)
     obs['probes'].append(o)
+  if deferred:
+    _run_deferred(case, p, rec, open_ar, openmode, pool, deferred, log)
   return obs
+
+
+def _record(o, pool, rcall):
+  method, a, kw, timeout = rcall
+  o['method'] = method if isinstance(method, str) else repr(method)
+  o['args_tuple'] = type(a) is tuple
+  o['kwargs_dict'] = type(kw) is dict
+  try:
+    o['args'] = _ids(pool, a)
+  except TypeError:
+    o['args'] = [-2]
+  try:
+    o['kwargs'] = [[k if isinstance(k, str) else repr(k), _ids(pool, [v])[0]] for k, v in kw.items()]
+  except Exception:
+    o['kwargs'] = [['?', -2]]
+  o['timeout_none'] = timeout is None
+
+
+def _run_deferred(case, p, rec, open_ar, openmode, pool, deferred, log):
+  """Calls issued while the real dispatcher's Open() is pending.  Blocking forms run in greenlets (they block in
+  get(); the async forms finish at once with the pending result).  Then Open() completes
+  (late*), completes after the calls' deadline (after_deadline) or never does, and every call must end as the
+  property says: the scripted value / error, or the call's own TimeoutError when it was never dispatched."""
+  import gevent
+  AR, TE = _S['AsyncResult'], _S['ScalesTimeoutError']
+  del log[:]
+  issued = []
+  before = len(rec.calls)
+  for oi, op, o in deferred:
+    value, err = _Val(('value', oi)), _Err('e%d' % oi)
+    d = 'error' if op['disp'] == 'raise' else op['disp']
+    rec.script.append((d, value if d == 'value' else err))
+    args = tuple(pool[i] for i in op['args'])
+    kwargs = dict((k, pool[i]) for k, i in op['kwargs'])
+    meth = getattr(p, op['name'])
+
+    def blocking(meth=meth, args=args, kwargs=kwargs):
+      try:
+        return ('ok', meth(*args, **kwargs))
+      except BaseException as e:      # noqa
+        return ('exc', e)
+    g = gevent.spawn(blocking)
+    gevent.sleep(0)                   # the method runs up to its first blocking point (or to completion)
+    issued.append((oi, op, o, d, value, err, g))
+  o_early = [g.ready() for (_oi, _op, _o, _d, _v, _e, g) in issued]
+  early_calls = len(rec.calls) - before
+  if openmode in ('late', 'late_notimeout'):
+    open_ar.set(True)
+  elif openmode == 'after_deadline':
+    gevent.sleep(0.2)
+    open_ar.set(True)
+  gevent.joinall([x[-1] for x in issued], timeout=8)
+  settled = []
+  for k, (oi, op, o, d, value, err, g) in enumerate(issued):
+    o['deferred'] = openmode
+    o['gets'] = -1
+    o['early_dispatch'] = early_calls > 0
+    if not g.ready():
+      g.kill(block=False)
+      o['ret'] = ['other', 'still blocked 8 s after Open() completed' if openmode.startswith('late') else 'still blocked after the deadline']
+      settled.append(None)
+      continue
+    tag, got = g.value if g.value is not None else ('exc', g.exception)
+    how = None               # 'value' / 'error' / 'timeout' / text
+    pending = False
+    if tag == 'ok' and isinstance(got, AR) and got is not value:
+      pending = True
+      o['async_returned_at_once'] = o_early[k]
+      try:
+        v = got.get(timeout=8)
+        how = 'value' if v is value else 'settled with %r' % (v,)
+      except BaseException as e2:     # noqa
+        tag, got = 'exc', e2
+    if how is None:
+      if tag == 'ok':
+        how = 'value' if got is value else 'returned %r' % (got,)
+      elif got is err or getattr(got, 'inner_exception', None) is err:
+        how = 'error'
+      elif isinstance(got, TE):
+        how = 'timeout'
+      else:
+        how = 'raised %s: %s' % (type(got).__name__, str(got)[:80])
+    o['how'] = how
+    o['was_pending'] = pending
+    if openmode.startswith('late'):
+      if how == 'value' and d == 'value':
+        o['ret'] = ['pending', oi] if pending else ['value', oi]
+      elif how == 'error' and d == 'error':
+        o['ret'] = ['pending', oi] if pending else ['raise', oi]
+      else:
+        o['ret'] = ['other', ('pending result ' if pending else '') + how]
+    else:
+      o['ret'] = ['pending-timeout' if pending else 'timeout'] if how == 'timeout' else ['other', ('pending result ' if pending else '') + how]
+  new = rec.calls[before:]
+  for k, (oi, op, o, d, value, err, g) in enumerate(issued):
+    if openmode.startswith('late'):
+      # calls reach the sink in the order they were issued (rawlink order); a wrong total shows as the count
+      o['ncalls'] = 1 if len(new) == len(issued) else len(new)
+      if k < len(new):
+        _record(o, pool, new[k])
+    else:
+      o['ncalls'] = len(new)          # 0 expected: a call that timed out waiting for Open() is not part of C20
+    o['own_ran'] = len(log)
 
 
 # ---------------------------------------------------------------------------------------------
@@ -800,8 +920,21 @@ def monitor_proxy(case, obs):
     if o.get('res') != 'call':
       v.append(('%s-form-missing' % mode, '%s is not a generated method: %s' % (tag, o.get('res'))))
       continue
+    if o.get('deferred') in ('never', 'after_deadline'):
+      # issued while Open() was pending and Open() did not complete before the call's deadline: the call's
+      # error is its TimeoutError - raised by the blocking form, carried by the pending result of the async form
+      exp = 'timeout' if mode == 'sync' else 'pending-timeout'
+      if (o.get('ret') or ['?'])[0] != exp:
+        v.append(('%s-result' % mode, '%s, issued while Open() was pending (%s): caller got %s, the call timed out' %
+                  (tag, o['deferred'], o.get('ret'))))
+      continue
     if o.get('ncalls') != 1:
       v.append(('dispatch-count', '%s dispatched %s times' % (tag, o.get('ncalls'))))
+      if o.get('deferred'):
+        # the outcome is still the caller's to see (a call lost while Open() was pending must not look like success)
+        r0 = (o.get('ret') or ['other'])[0]
+        if r0 == 'other':
+          v.append(('%s-result' % mode, '%s, issued while Open() was pending: caller got %s' % (tag, o.get('ret'))))
       continue
     if o.get('method') != m:
       v.append(('method-name-changed', '%s handed method name %r to the dispatcher' % (tag, o.get('method'))))
@@ -813,8 +946,9 @@ def monitor_proxy(case, obs):
     if not o.get('timeout_none', True):
       v.append(('extra-dispatch-argument', '%s passed a timeout to the dispatcher' % tag))
     d = op['disp']
-    ret = o.get('ret')
-    oi = ret[1] if ret else None
+    if d == 'raise' and case.get('dispatcher') == 'real':
+      d = 'error'            # the real dispatcher never raises synchronously: the call fails instead
+    ret = o.get('ret') or ['other', 'nothing observed']
     if d == 'raise':
       if ret[0] != 'raise':
         v.append(('dispatch-error-lost', '%s: dispatcher raised but caller got %s' % (tag, ret)))
@@ -995,7 +1129,11 @@ def to_coq(case, obs):
     ms = C.lst(['(Mem %s %s %s)' % (nm(n), k, nm(f)) for n, k, f in model_members(case, obs['mro'])])
     probes = []
     for oi, (op, o) in enumerate(zip(case['ops'], obs.get('probes', []))):
+      if o.get('deferred') in ('never', 'after_deadline'):
+        continue               # never dispatched (timed out waiting for Open()): monitor only
       d = op['disp']
+      if d == 'raise' and case.get('dispatcher') == 'real':
+        d = 'error'
       dt = '(DRaise %s)' % C.zlit(oi) if d == 'raise' else '(DPending %s (%s %s))' % (
           C.zlit(oi), 'SValue' if d == 'value' else 'SError', C.zlit(oi))
       pr = '(Probe %s %s %s %s)' % (nm(op['name']), _zs(op['args']),
@@ -1062,6 +1200,7 @@ def stats(cases, obs):
   kinds = {}
   uri_out = {}
   feats = {}
+  defer = {}
   n_alias = n_coll = n_multi = n_initalias = n_real = n_public = n_unspec = n_reserved = 0
   for c, o in zip(cases, obs):
     if not isinstance(o, dict) or 'harness_exc' in o:
@@ -1089,6 +1228,9 @@ def stats(cases, obs):
         if p.get('res') == 'call':
           key = '%s/%s' % (op['disp'], (p.get('ret') or ['?'])[0])
           rets[key] = rets.get(key, 0) + 1
+          if p.get('deferred'):
+            key = '%s:%s/%s' % (p['deferred'], op['disp'], (p.get('ret') or ['?'])[0])
+            defer[key] = defer.get(key, 0) + 1
     else:
       key = c['kind'] + ':' + (o.get('type') or o.get('exc') or '?')
       uri_out[key] = uri_out.get(key, 0) + 1
@@ -1105,7 +1247,8 @@ def stats(cases, obs):
   return {'lookup_resolutions': res, 'call_outcomes_by_dispatcher_behaviour': rets, 'member_kinds_resolved': kinds,
           'public_methods': n_public, 'alias_members': n_alias, 'aliases_with_unspecified_publicness': n_unspec,
           'init_aliases': n_initalias, 'foo_foo_async_collisions': n_coll, 'reserved_name_methods': n_reserved,
-          'interfaces_with_multiple_inheritance': n_multi, 'interfaces_on_real_dispatcher': n_real, 'uri_outcomes': uri_out,
+          'interfaces_with_multiple_inheritance': n_multi, 'interfaces_on_real_dispatcher': n_real,
+          'calls_issued_while_open_pending_by_mode_and_outcome': defer, 'uri_outcomes': uri_out,
           'uri_features': feats}
 
 
